@@ -286,7 +286,7 @@ def check_posterior(inp):
                 return _fail('F6-float-of-1d-array' if err.startswith('TypeError') else 'density-raise', '_pdf_unnorm_single_point raised %s' % err, inp)
             if abs(float(got) - exp) > 1e-9 * max(1.0, abs(exp)):
                 return _fail('density', '_pdf_unnorm_single_point(%r) = %r, expected prior x count = %r' % (th.tolist(), got, exp), inp)
-    if which in ('posterior', 'sample', '_worker_compute_weight'):
+    if which in ('posterior', 'RomcPosterior.sample', '_worker_compute_weight'):
         n2 = inp.get('n2', 4)
         if which == '_worker_compute_weight':       # the per-region worker alone, on draws taken from the regions directly
             theta = np.array([r.sample(n2, seed=inp.get('seed', 0)) for r in regions])
@@ -346,6 +346,8 @@ def run(tier='quick', seed=0):
 
 def replay_input(inp):
     """True iff the property HOLDS on this input"""
+    if 'function' not in inp and isinstance(inp.get('input'), dict):
+        inp = inp['input']              # a failure record of the bounded stand-in (signature / what / input)
     fn = inp.get('function', 'box')
     if fn in ('box', 'contains', 'sample', 'pdf', '_secure_limits', '_compute_volume'):
         return check_box(inp) is None
